@@ -108,6 +108,9 @@ def fix_violation(v, params, E):
     elif cls == 'value': v['kind'] = 'headers'; v['api'] = 'cfg'; v['buf'] = (b'N:x' + raw + b'x\r\n\r\n').hex()
     else: v['kind'] = 'headers'; v['api'] = 'cfg'; v['buf'] = (b'x' + raw + b':v\r\n\r\n').hex()
     v['cap'] = 1; v['flags'] = 0; v['predicted'] = None; v['raw_scanner_input'] = raw.hex()
+    if 'does not return normally' in v['msg'] or 'cursor left the buffer' in v['msg']:
+        # memory-safety failure inside a scanner: the embedding changes what lies after the bytes, so a native run cannot confirm it
+        v['rel'] = 'ub'
     v['note'] = 'scanner-level counterexample embedded into a message; the native gate compares the real parser with the reference on it'
     tag = params['tag']
     v['variant'] = {'sse42': 'x86-sse42-ct', 'avx2': 'x86-avx2-ct', 'runtime': 'x86-rt', 'sse42-ct': 'x86-sse42-ct', 'avx2-ct': 'x86-avx2-ct',
